@@ -15,13 +15,13 @@ Proof. unfold def_before_use_b, def_before_use. apply forallb_forall. Qed.
 
 (** ** the CaseWhen arm as coded is unsound: the match witness *)
 Lemma search_refuted :
-  exists t, wf_block t = true /\ search_invalid [] t = Accept /\ ~ def_before_use [] t.
+  exists t, wf_block t = true /\ search_invalid_coded [] t = Accept /\ ~ def_before_use [] t.
 Proof.
   exists match_witness. split; [reflexivity|]. split; [vm_compute; reflexivity|].
   intros H. apply dbu_b_iff in H. vm_compute in H. discriminate.
 Qed.
 
-Lemma search_fixed_rejects_witness : search_invalid_fixed [] match_witness = RejInvalid.
+Lemma search_rejects_witness : search_invalid [] match_witness = RejInvalid.
 Proof. vm_compute. reflexivity. Qed.
 
 (** ** _check_temporaries *)
@@ -60,17 +60,17 @@ Proof. vm_compute. split; reflexivity. Qed.
 
 (** ** cleanup_bool_cast as coded loses the write of a chained cast *)
 Lemma boolcast_refuted :
-  exists t, search_invalid_fixed [] t = Accept /\ def_before_use [] t /\ ~ def_before_use [] (cleanup t).
+  exists t, search_invalid [] t = Accept /\ def_before_use [] t /\ ~ def_before_use [] (cleanup_coded t).
 Proof.
   exists boolcast_witness. split; [vm_compute; reflexivity|]. split.
   - apply dbu_b_iff. vm_compute. reflexivity.
   - intros H. apply dbu_b_iff in H. vm_compute in H. discriminate.
 Qed.
 
-Lemma boolcast_fixed_witness : def_before_use [] (cleanup_fixed boolcast_witness).
+Lemma boolcast_witness_ok : def_before_use [] (cleanup boolcast_witness).
 Proof. apply dbu_b_iff. vm_compute. reflexivity. Qed.
 
-(** ** Soundness of the corrected search (fx = true) *)
+(** ** Soundness of the search of the current tree (corrected CaseWhen arm, fx = true) *)
 
 Arguments pmem : simpl never.
 Arguments premove : simpl never.
@@ -551,10 +551,10 @@ Section Sound.
         split; [assumption|]. exists xj. split; [assumption|]. split; assumption.
   Qed.
 
-  Theorem search_fixed_sound : forall t, wf_block t = true ->
-    search_invalid_fixed MU t = Accept -> def_before_use MU t.
+  Theorem search_sound : forall t, wf_block t = true ->
+    search_invalid MU t = Accept -> def_before_use MU t.
   Proof.
-    intros t Hwf H p Hp. unfold search_invalid_fixed, search_invalid_gen in H.
+    intros t Hwf H p Hp. unfold search_invalid, search_invalid_gen in H.
     destruct (search_block true MU t {| inv := []; wr := [] |} []) as [[x' loc']|v] eqn:E; [|destruct v; discriminate].
     assert (HI : Inv [] {| inv := []; wr := [] |}) by (intros r Hr; discriminate).
     destruct (B_block_pf t _ _ _ _ [] E Hwf HI p Hp) as [O _]. exact O.
@@ -611,3 +611,320 @@ Example cleanup_unused_nonvacuous :
   let t := BCons (SExpr false [OOther] (OTemp 1)) (BCons (SExpr false [OOther] (OTemp 2)) (BCons (SOther [OTemp 1]) BNil)) in
   temp_lin (cleanup_unused t) = [AW (OTemp 1); AR (OTemp 1)].
 Proof. vm_compute. reflexivity. Qed.
+
+(** ** cleanup preserves definition-before-use, path-wise *)
+
+Lemma reads_of_app a b : reads_of (a ++ b) = reads_of a ++ reads_of b.
+Proof. induction a as [|[[r|]|[r|]] a IH]; cbn; congruence. Qed.
+
+Lemma reads_of_reads l r : In r (reads_of (map AR l)) <-> In (OTemp r) l.
+Proof.
+  induction l as [|[x|] l IH]; cbn; [tauto| |].
+  - rewrite IH. split; intros [H|H]; auto; [left; congruence|left; congruence].
+  - rewrite IH. split; [auto|intros [H|H]; [discriminate|auto]].
+Qed.
+
+(** *** reads on a path are reads of the linearisation *)
+Definition RP_stmt (s : stmt) := forall p r, In p (paths_stmt s) -> In r (reads_of p) -> In r (reads_of (lin_stmt s)).
+Definition RP_block (b : block) := forall p r, In p (paths_block b) -> In r (reads_of p) -> In r (reads_of (lin_block b)).
+Definition RP_brs (b : branches) := forall p r, In p (paths_brs b) -> In r (reads_of p) -> In r (reads_of (lin_brs b)).
+
+Lemma reads_cons_AR o p r : In r (reads_of (AR o :: p)) <-> (o = OTemp r \/ In r (reads_of p)).
+Proof.
+  destruct o as [x|]; cbn.
+  - split; intros [H|H]; auto; left; congruence.
+  - split; [auto|intros [H|H]; [discriminate|assumption]].
+Qed.
+
+Fixpoint RP_stmt_pf (s : stmt) {struct s} : RP_stmt s
+with RP_block_pf (b : block) {struct b} : RP_block b
+with RP_brs_pf (b : branches) {struct b} : RP_brs b.
+Proof.
+  - destruct s as [c reads result|target source|reads|test body orelse|b|value brs hasdef default];
+      unfold RP_stmt; intros p r Hp Hr; cbn [paths_stmt lin_stmt] in *.
+    + destruct Hp as [<-|[]]. assumption.
+    + destruct Hp as [<-|[]]. rewrite reads_of_app in Hr. apply in_app_or in Hr.
+      destruct Hr as [Hr|Hr]; [|destruct target; cbn in Hr; contradiction].
+      destruct target; cbn; assumption.
+    + destruct Hp as [<-|[]]. assumption.
+    + apply in_map_iff in Hp. destruct Hp as [q [<- Hq]]. apply reads_cons_AR in Hr. apply reads_cons_AR.
+      destruct Hr as [Hr|Hr]; [left; assumption|right]. rewrite reads_of_app. apply in_or_app.
+      apply in_app_or in Hq. destruct Hq as [Hq|Hq]; [left; eapply RP_block_pf|right; eapply RP_block_pf]; eassumption.
+    + eapply RP_block_pf; eassumption.
+    + apply in_map_iff in Hp. destruct Hp as [q [<- Hq]]. apply reads_cons_AR in Hr.
+      rewrite !reads_of_app. apply in_or_app.
+      destruct Hr as [Hr|Hr].
+      * right. apply in_or_app. right. subst. cbn. auto.
+      * apply in_app_or in Hq. destruct Hq as [Hq|Hq]; [left; eapply RP_brs_pf; eassumption|].
+        right. apply in_or_app. left. destruct hasdef; [eapply RP_block_pf; eassumption|].
+        destruct Hq as [<-|[]]. cbn in Hr. contradiction.
+  - destruct b as [|s r0]; unfold RP_block; intros p r Hp Hr; cbn [paths_block lin_block] in *.
+    + destruct Hp as [<-|[]]. cbn in Hr. contradiction.
+    + apply in_flat_map in Hp. destruct Hp as [p1 [Hp1 Hp]]. apply in_map_iff in Hp. destruct Hp as [q [<- Hq]].
+      rewrite reads_of_app in *. apply in_or_app. apply in_app_or in Hr.
+      destruct Hr as [Hr|Hr]; [left; eapply RP_stmt_pf|right; eapply RP_block_pf]; eassumption.
+  - destruct b as [|cond code r0]; unfold RP_brs; intros p r Hp Hr; cbn [paths_brs lin_brs] in *; [contradiction|].
+    apply in_app_or in Hp. apply reads_cons_AR. rewrite reads_of_app. destruct Hp as [Hp|Hp].
+    + apply in_map_iff in Hp. destruct Hp as [q [<- Hq]]. apply reads_cons_AR in Hr.
+      destruct Hr as [Hr|Hr]; [left; assumption|right]. apply in_or_app. left. eapply RP_block_pf; eassumption.
+    + right. apply in_or_app. right. eapply RP_brs_pf; eassumption.
+Qed.
+
+(** *** cleanup_unused: every path of the result is a path of the input with accesses deleted *)
+Inductive Del (used : list positive) : list acc -> list acc -> Prop :=
+| Del_nil : Del used [] []
+| Del_keep a p p' : Del used p p' -> Del used (a :: p) (a :: p')
+| Del_read o p p' : Del used p p' -> Del used (AR o :: p) p'
+| Del_write o p p' : Del used p p' -> unused used o = true -> Del used (AW o :: p) p'.
+
+Lemma Del_refl used p : Del used p p.
+Proof. induction p; constructor; assumption. Qed.
+
+Lemma Del_app used p p' q q' : Del used p p' -> Del used q q' -> Del used (p ++ q) (p' ++ q').
+Proof. induction 1; intros Hq; cbn; [assumption|constructor; auto|constructor; auto|constructor; auto]. Qed.
+
+Lemma Del_reads used l q q' : Del used q q' -> Del used (map AR l ++ q) q'.
+Proof. intros H. induction l as [|o l IH]; cbn; [assumption|constructor; assumption]. Qed.
+
+Definition DP_stmt (s : stmt) := forall used p', In p' (paths_stmt (cu_stmt used s)) -> exists p, In p (paths_stmt s) /\ Del used p p'.
+Definition DP_block (b : block) := forall used p', In p' (paths_block (cu_block used b)) -> exists p, In p (paths_block b) /\ Del used p p'.
+Definition DP_brs (b : branches) := forall used p', In p' (paths_brs (cu_brs used b)) -> exists p, In p (paths_brs b) /\ Del used p p'.
+
+Fixpoint DP_stmt_pf (s : stmt) {struct s} : DP_stmt s
+with DP_block_pf (b : block) {struct b} : DP_block b
+with DP_brs_pf (b : branches) {struct b} : DP_brs b.
+Proof.
+  - destruct s as [c reads result|target source|reads|test body orelse|b|value brs hasdef default];
+      unfold DP_stmt; intros used p' Hp; cbn [cu_stmt] in Hp.
+    + destruct (unused used result) eqn:E.
+      * cbn in Hp. destruct Hp as [<-|[]]. eexists. split; [left; reflexivity|].
+        apply Del_reads. constructor; [constructor|assumption].
+      * eexists. split; [eassumption|apply Del_refl].
+    + destruct (unused used target) eqn:E.
+      * cbn in Hp. destruct Hp as [<-|[]]. eexists. split; [left; reflexivity|].
+        apply Del_reads. constructor; [constructor|assumption].
+      * eexists. split; [eassumption|apply Del_refl].
+    + eexists. split; [eassumption|apply Del_refl].
+    + cbn [paths_stmt] in *. apply in_map_iff in Hp. destruct Hp as [q' [<- Hq]]. apply in_app_or in Hq.
+      destruct Hq as [Hq|Hq].
+      * destruct (DP_block_pf body used q' Hq) as [q [Hq1 Hq2]]. exists (AR test :: q). split; [|constructor; assumption].
+        apply in_map. apply in_or_app. left. assumption.
+      * destruct (DP_block_pf orelse used q' Hq) as [q [Hq1 Hq2]]. exists (AR test :: q). split; [|constructor; assumption].
+        apply in_map. apply in_or_app. right. assumption.
+    + cbn [paths_stmt] in *. apply DP_block_pf. assumption.
+    + cbn [paths_stmt] in *. apply in_map_iff in Hp. destruct Hp as [q' [<- Hq]]. apply in_app_or in Hq.
+      destruct Hq as [Hq|Hq].
+      * destruct (DP_brs_pf brs used q' Hq) as [q [Hq1 Hq2]]. exists (AR value :: q). split; [|constructor; assumption].
+        apply in_map. apply in_or_app. left. assumption.
+      * destruct hasdef.
+        -- destruct (DP_block_pf default used q' Hq) as [q [Hq1 Hq2]]. exists (AR value :: q). split; [|constructor; assumption].
+           apply in_map. apply in_or_app. right. assumption.
+        -- destruct Hq as [<-|[]]. exists [AR value]. split; [|apply Del_refl].
+           apply in_map. apply in_or_app. right. left. reflexivity.
+  - destruct b as [|s r0]; unfold DP_block; intros used p' Hp; cbn [cu_block paths_block] in *.
+    + destruct Hp as [<-|[]]. exists []. split; [left; reflexivity|constructor].
+    + apply in_flat_map in Hp. destruct Hp as [p1' [Hp1 Hp]]. apply in_map_iff in Hp. destruct Hp as [q' [<- Hq]].
+      destruct (DP_stmt_pf s used p1' Hp1) as [p1 [A1 A2]]. destruct (DP_block_pf r0 used q' Hq) as [q [B1 B2]].
+      exists (p1 ++ q). split; [|apply Del_app; assumption].
+      apply in_flat_map. exists p1. split; [assumption|]. apply in_map. assumption.
+  - destruct b as [|cond code r0]; unfold DP_brs; intros used p' Hp; cbn [cu_brs paths_brs] in *; [contradiction|].
+    apply in_app_or in Hp. destruct Hp as [Hp|Hp].
+    + apply in_map_iff in Hp. destruct Hp as [q' [<- Hq]]. destruct (DP_block_pf code used q' Hq) as [q [Hq1 Hq2]].
+      exists (AR cond :: q). split; [|constructor; assumption]. apply in_or_app. left. apply in_map. assumption.
+    + destruct (DP_brs_pf r0 used p' Hp) as [q [Hq1 Hq2]]. exists q. split; [|assumption]. apply in_or_app. right. assumption.
+Qed.
+
+Lemma Del_ok MU used p p' : Del used p p' ->
+  forall D D', ok_from MU D p = true ->
+    (forall r, In r (reads_of p) -> pmem r used = true) ->
+    (forall r, pmem r used = true -> pmem r D = true -> pmem r D' = true) ->
+    ok_from MU D' p' = true.
+Proof.
+  induction 1 as [|a p p' H IH|o p p' H IH|o p p' H IH Hu]; intros D D' Hok Hrd HD.
+  - reflexivity.
+  - destruct a as [[r|]|[r|]]; cbn in *.
+    + apply andb_true_iff in Hok. destruct Hok as [Hr Hok]. apply andb_true_iff. split.
+      * apply orb_true_iff in Hr. apply orb_true_iff. destruct Hr as [Hr|Hr]; [left; assumption|right].
+        apply HD; [apply Hrd; left; reflexivity|assumption].
+      * eapply IH; [eassumption| |assumption]. intros x Hx. apply Hrd. right. assumption.
+    + eapply IH; eassumption.
+    + eapply IH; [eassumption|assumption|]. intros x Hu Hx. unfold pmem in *. cbn in *.
+      apply orb_true_iff in Hx. apply orb_true_iff. destruct Hx as [Hx|Hx]; [left; assumption|right; apply HD; assumption].
+    + eapply IH; eassumption.
+  - destruct o as [r|]; cbn in *.
+    + apply andb_true_iff in Hok. destruct Hok as [_ Hok]. eapply IH; [eassumption| |assumption].
+      intros x Hx. apply Hrd. right. assumption.
+    + eapply IH; eassumption.
+  - destruct o as [r|]; cbn in *; [|discriminate].
+    eapply IH; [eassumption|assumption|]. intros x Hx Hd. apply HD; [assumption|].
+    unfold pmem in Hd. cbn in Hd. apply orb_true_iff in Hd. destruct Hd as [Hd|Hd]; [|assumption].
+    apply Pos.eqb_eq in Hd. subst. apply negb_true_iff in Hu. congruence.
+Qed.
+
+Theorem cleanup_unused_preserves MU t : def_before_use MU t -> def_before_use MU (cleanup_unused t).
+Proof.
+  intros H p' Hp'. unfold cleanup_unused, paths in *.
+  destruct (DP_block_pf t _ _ Hp') as [p [Hp HD]].
+  eapply Del_ok; [eassumption|apply H; assumption| |auto].
+  intros r Hr. apply pmem_In. eapply RP_block_pf; eassumption.
+Qed.
+
+(** *** cleanup_bool_cast: every path of the result is a path of the input, renamed, with the casts deleted *)
+Definition sa (m : rmap) (a : acc) : acc := match a with AR o => AR (bc_obj m o) | AW o => AW (bc_obj m o) end.
+
+Lemma bc_obj_temp m r : bc_obj m (OTemp r) = OTemp (sigma m r).
+Proof. unfold bc_obj, sigma. destruct (rfind m r); reflexivity. Qed.
+
+Lemma bc_stmt_expr m c reads result :
+  bc_stmt m (SExpr c reads result) =
+  match is_cast c reads result with
+  | Some _ => SOther []
+  | None => SExpr c (map (bc_obj m) reads) (bc_obj m result)
+  end.
+Proof. destruct c; [|reflexivity]. destruct reads as [|[s|] [|? ?]]; destruct result; reflexivity. Qed.
+
+Lemma is_cast_some c reads result t s : is_cast c reads result = Some (t, s) -> reads = [OTemp s] /\ result = OTemp t.
+Proof.
+  destruct c; [|discriminate]. destruct reads as [|[x|] [|? ?]]; destruct result; try discriminate.
+  cbn. intros [= -> ->]. auto.
+Qed.
+
+Lemma map_sa_reads m l : map (sa m) (map AR l) = map AR (map (bc_obj m) l).
+Proof. rewrite !map_map. reflexivity. Qed.
+
+Section Tr.
+  Variable C : positive -> positive -> Prop.
+  Variable m : rmap.
+
+  Inductive Tr : list acc -> list acc -> Prop :=
+  | Tr_nil : Tr [] []
+  | Tr_keep a p p' : Tr p p' -> Tr (a :: p) (sa m a :: p')
+  | Tr_cast s t p p' : C t s -> Tr p p' -> Tr (AR (OTemp s) :: AW (OTemp t) :: p) p'.
+
+  Lemma Tr_map l : Tr l (map (sa m) l).
+  Proof. induction l; cbn; constructor; assumption. Qed.
+
+  Lemma Tr_app p p' q q' : Tr p p' -> Tr q q' -> Tr (p ++ q) (p' ++ q').
+  Proof. induction 1; intros Hq; cbn; [assumption|constructor; auto|constructor; auto]. Qed.
+
+  Definition TP_stmt (s : stmt) := (forall t s', In (t, s') (casts_stmt s) -> C t s') ->
+    forall p', In p' (paths_stmt (bc_stmt m s)) -> exists p, In p (paths_stmt s) /\ Tr p p'.
+  Definition TP_block (b : block) := (forall t s', In (t, s') (casts_block b) -> C t s') ->
+    forall p', In p' (paths_block (bc_block m b)) -> exists p, In p (paths_block b) /\ Tr p p'.
+  Definition TP_brs (b : branches) := (forall t s', In (t, s') (casts_brs b) -> C t s') ->
+    forall p', In p' (paths_brs (bc_brs m b)) -> exists p, In p (paths_brs b) /\ Tr p p'.
+
+  Fixpoint TP_stmt_pf (s : stmt) {struct s} : TP_stmt s
+  with TP_block_pf (b : block) {struct b} : TP_block b
+  with TP_brs_pf (b : branches) {struct b} : TP_brs b.
+  Proof.
+    - destruct s as [c reads result|target source|reads|test body orelse|b|value brs hasdef default];
+        unfold TP_stmt; intros HC p' Hp.
+      + rewrite bc_stmt_expr in Hp. cbn [casts_stmt] in HC. destruct (is_cast c reads result) as [[t s]|] eqn:E.
+        * apply is_cast_some in E. destruct E as [-> ->]. cbn in Hp. destruct Hp as [<-|[]].
+          eexists. split; [left; reflexivity|]. cbn. apply Tr_cast; [apply HC; left; reflexivity|constructor].
+        * cbn in Hp. destruct Hp as [<-|[]]. eexists. split; [left; reflexivity|].
+          rewrite <- map_sa_reads. change [AW (bc_obj m result)] with (map (sa m) [AW result]).
+          rewrite <- map_app. apply Tr_map.
+      + cbn in Hp. destruct Hp as [<-|[]]. eexists. split; [left; reflexivity|].
+        rewrite <- map_sa_reads. change [AW (bc_obj m target)] with (map (sa m) [AW target]).
+        rewrite <- map_app. apply Tr_map.
+      + cbn in Hp. destruct Hp as [<-|[]]. eexists. split; [left; reflexivity|].
+        rewrite <- map_sa_reads. apply Tr_map.
+      + cbn [bc_stmt paths_stmt casts_stmt] in *. apply in_map_iff in Hp. destruct Hp as [q' [<- Hq]].
+        apply in_app_or in Hq. destruct Hq as [Hq|Hq].
+        * destruct (TP_block_pf body (fun t s' H => HC t s' (in_or_app _ _ _ (or_introl H))) q' Hq) as [q [Hq1 Hq2]].
+          exists (AR test :: q). split; [|exact (Tr_keep (AR test) _ _ Hq2)].
+          apply in_map. apply in_or_app. left. assumption.
+        * destruct (TP_block_pf orelse (fun t s' H => HC t s' (in_or_app _ _ _ (or_intror H))) q' Hq) as [q [Hq1 Hq2]].
+          exists (AR test :: q). split; [|exact (Tr_keep (AR test) _ _ Hq2)].
+          apply in_map. apply in_or_app. right. assumption.
+      + cbn [bc_stmt paths_stmt casts_stmt] in *. apply TP_block_pf; assumption.
+      + cbn [bc_stmt paths_stmt casts_stmt] in *. apply in_map_iff in Hp. destruct Hp as [q' [<- Hq]].
+        apply in_app_or in Hq. destruct Hq as [Hq|Hq].
+        * destruct (TP_brs_pf brs (fun t s' H => HC t s' (in_or_app _ _ _ (or_introl H))) q' Hq) as [q [Hq1 Hq2]].
+          exists (AR value :: q). split; [|exact (Tr_keep (AR value) _ _ Hq2)].
+          apply in_map. apply in_or_app. left. assumption.
+        * destruct hasdef.
+          -- destruct (TP_block_pf default (fun t s' H => HC t s' (in_or_app _ _ _ (or_intror H))) q' Hq) as [q [Hq1 Hq2]].
+             exists (AR value :: q). split; [|exact (Tr_keep (AR value) _ _ Hq2)].
+             apply in_map. apply in_or_app. right. assumption.
+          -- destruct Hq as [<-|[]]. exists [AR value]. split; [|exact (Tr_keep (AR value) _ _ Tr_nil)].
+             apply in_map. apply in_or_app. right. left. reflexivity.
+    - destruct b as [|s r0]; unfold TP_block; intros HC p' Hp; cbn [bc_block paths_block casts_block] in *.
+      + destruct Hp as [<-|[]]. exists []. split; [left; reflexivity|constructor].
+      + apply in_flat_map in Hp. destruct Hp as [p1' [Hp1 Hp]]. apply in_map_iff in Hp. destruct Hp as [q' [<- Hq]].
+        destruct (TP_stmt_pf s (fun t s' H => HC t s' (in_or_app _ _ _ (or_introl H))) p1' Hp1) as [p1 [A1 A2]].
+        destruct (TP_block_pf r0 (fun t s' H => HC t s' (in_or_app _ _ _ (or_intror H))) q' Hq) as [q [B1 B2]].
+        exists (p1 ++ q). split; [|apply Tr_app; assumption].
+        apply in_flat_map. exists p1. split; [assumption|]. apply in_map. assumption.
+    - destruct b as [|cond code r0]; unfold TP_brs; intros HC p' Hp; cbn [bc_brs paths_brs casts_brs] in *; [contradiction|].
+      apply in_app_or in Hp. destruct Hp as [Hp|Hp].
+      + apply in_map_iff in Hp. destruct Hp as [q' [<- Hq]].
+        destruct (TP_block_pf code (fun t s' H => HC t s' (in_or_app _ _ _ (or_introl H))) q' Hq) as [q [Hq1 Hq2]].
+        exists (AR cond :: q). split; [|exact (Tr_keep (AR cond) _ _ Hq2)]. apply in_or_app. left. apply in_map. assumption.
+      + destruct (TP_brs_pf r0 (fun t s' H => HC t s' (in_or_app _ _ _ (or_intror H))) p' Hp) as [q [Hq1 Hq2]].
+        exists q. split; [|assumption]. apply in_or_app. right. assumption.
+  Qed.
+
+  Lemma Tr_ok MU p p' : Tr p p' ->
+    (forall t s, C t s -> sigma m t = sigma m s) ->
+    (forall x, pmem x MU = true -> pmem (sigma m x) MU = true) ->
+    forall D D', ok_from MU D p = true ->
+      (forall x, pmem x D = true -> pmem (sigma m x) D' = true \/ pmem (sigma m x) MU = true) ->
+      ok_from MU D' p' = true.
+  Proof.
+    intros H HC HM. induction H as [|a p p' H IH|s t p p' Hc H IH]; intros D D' Hok HR.
+    - reflexivity.
+    - destruct a as [[x|]|[x|]]; cbn [sa]; rewrite ?bc_obj_temp; cbn [bc_obj ok_from] in *.
+      + apply andb_true_iff in Hok. destruct Hok as [Hx Hok]. apply andb_true_iff. split; [|eapply IH; eassumption].
+        apply orb_true_iff in Hx. apply orb_true_iff. destruct Hx as [Hx|Hx]; [left; auto|].
+        destruct (HR x Hx); [right|left]; assumption.
+      + eapply IH; eassumption.
+      + eapply IH; [eassumption|]. intros y Hy. unfold pmem in Hy. cbn in Hy. apply orb_true_iff in Hy.
+        destruct Hy as [Hy|Hy].
+        * apply Pos.eqb_eq in Hy. subst. left. unfold pmem. cbn. rewrite Pos.eqb_refl. reflexivity.
+        * destruct (HR y Hy) as [G|G]; [left|right; assumption]. unfold pmem in *. cbn. rewrite G. apply orb_true_r.
+      + eapply IH; eassumption.
+    - cbn [ok_from] in Hok. apply andb_true_iff in Hok. destruct Hok as [Hs Hok].
+      eapply IH; [eassumption|]. intros y Hy. unfold pmem in Hy. cbn in Hy. apply orb_true_iff in Hy.
+      destruct Hy as [Hy|Hy]; [|apply HR; assumption].
+      apply Pos.eqb_eq in Hy. subst. rewrite (HC _ _ Hc).
+      apply orb_true_iff in Hs. destruct Hs as [Hs|Hs]; [right; auto|apply HR; assumption].
+  Qed.
+End Tr.
+
+Theorem cleanup_bool_cast_preserves MU t :
+  def_before_use MU t -> bc_consistent t = true -> mu_closed MU t = true ->
+  def_before_use MU (cleanup_bool_cast t).
+Proof.
+  intros H Hc Hm p' Hp'. unfold cleanup_bool_cast, cleanup_bool_cast_gen, paths in *.
+  set (m := bc_collect_block true t []) in *.
+  set (C := fun t0 s0 : positive => In (t0, s0) (casts_block t)).
+  destruct (TP_block_pf C m t (fun t0 s0 H0 => H0) p' Hp') as [p [Hp HT]].
+  eapply (Tr_ok C m MU p p' HT).
+  - intros t0 s0 H0. unfold bc_consistent, bc_consistent_gen in Hc. fold m in Hc. rewrite forallb_forall in Hc.
+    specialize (Hc _ H0). apply Pos.eqb_eq in Hc. exact Hc.
+  - intros x Hx. unfold mu_closed in Hm. fold m in Hm. rewrite forallb_forall in Hm. apply Hm. apply pmem_In. assumption.
+  - apply H. assumption.
+  - intros x Hx. discriminate.
+Qed.
+
+(** the whole cleanup of [ConvertInstance.apply] (unused-temporary removal, then the bool-cast pass of the
+    current tree) keeps definition-before-use on every path, provided no remaining read refers to a removed
+    write ([bc_consistent]) and maybe-uninitialized temporaries are only replaced among themselves *)
+Theorem cleanup_preserves MU t :
+  def_before_use MU t ->
+  bc_consistent (cleanup_unused t) = true -> mu_closed MU (cleanup_unused t) = true ->
+  def_before_use MU (cleanup t).
+Proof.
+  intros H Hc Hm. unfold cleanup. apply cleanup_bool_cast_preserves; [|assumption|assumption].
+  apply cleanup_unused_preserves. assumption.
+Qed.
+
+Example cleanup_preserves_nonvacuous :
+  def_before_use_b [] boolcast_witness = true /\
+  bc_consistent (cleanup_unused boolcast_witness) = true /\ mu_closed [] (cleanup_unused boolcast_witness) = true /\
+  temp_lin (cleanup boolcast_witness) = [AW (OTemp 1); AR (OTemp 1)] /\
+  bc_consistent_gen false (cleanup_unused boolcast_witness) = false.
+Proof. vm_compute. repeat split. Qed.
